@@ -231,3 +231,47 @@ func H_C15_callerbytes() {
 	vxrt.Assert(len(t.errors) == 0 && len(t.logs) == 1, "C15:existing-path-no-error")
 	vxrt.Assert(string(input) == doc, "C15:caller-bytes-untouched")
 }
+
+// H_C15_inplace: a Custom callback that masks by editing the decoded object (or list) it was
+// handed and returning that same object: what it wrote is what gets stored, like for a freshly
+// built result.
+func H_C15_inplace() {
+	vxrt.CI(false)
+	vxrt.EnvFixed("NO_COLOR", "1")
+	dir := vxrt.Dir()
+	c := WithConfig(Dir(dir), Filename("f"))
+	list := vxrt.Bool("list-value")
+	fresh := vxrt.Bool("fresh-result")
+	doc := `{"k":1,"user":{"name":"n","token":"secret"}}`
+	want := "{\n \"k\": 1,\n \"user\": {\n  \"name\": \"n\",\n  \"token\": \"REDACTED\"\n }\n}"
+	cb := func(v any) (any, error) {
+		m := v.(map[string]any)
+		if fresh {
+			return map[string]any{"name": m["name"], "token": "REDACTED"}, nil
+		}
+		m["token"] = "REDACTED"
+		return m, nil
+	}
+	if list {
+		doc = `{"k":1,"user":["n","secret"]}`
+		want = "{\n \"k\": 1,\n \"user\": [\n  \"n\",\n  \"REDACTED\"\n ]\n}"
+		cb = func(v any) (any, error) {
+			l := v.([]any)
+			if fresh {
+				return []any{l[0], "REDACTED"}, nil
+			}
+			l[1] = "REDACTED"
+			return l, nil
+		}
+	}
+	t := vxNewT("TestM")
+	if vxrt.Bool("standalone") {
+		c.MatchStandaloneJSON(t, doc, match.Custom("user", cb))
+		t.end()
+		vxrt.Assert(len(t.errors) == 0 && vxReadFile(dir+"/f_1.snap.json") == want, "C15:callback-result-is-what-is-stored")
+		return
+	}
+	c.MatchJSON(t, doc, match.Custom("user", cb))
+	t.end()
+	vxrt.Assert(len(t.errors) == 0 && vxReadFile(dir+"/f.snap") == vxFrame("TestM - 1", want), "C15:callback-result-is-what-is-stored")
+}
